@@ -218,8 +218,78 @@ def subsets_for_case(rng, tier, must):
     return list(dict.fromkeys(fam))
 
 
+CORNER_REFS = ['0', '1', 'a', 'a 0', '0 1', 'iso 0', 'a b', 'b(0)', 'b(2) 0', '00', '4294967295']
+
+
+def corner_text(rng):
+    """hand-made texts the grammar accepts although no MIB author writes them: object names given in
+    OID form (numbers first, zero, several sub-identifiers) wherever the grammar takes an ObjectName"""
+    r = lambda: rng.choice(CORNER_REFS)  # noqa
+    parts = ['CORNER-MIB DEFINITIONS ::= BEGIN']
+    n = rng.randint(1, 4)
+    for i in range(n):
+        k = rng.randrange(6)
+        if k == 0:
+            parts.append('row%d OBJECT-TYPE SYNTAX RowT MAX-ACCESS not-accessible STATUS current DESCRIPTION "d" '
+                         'INDEX { %s%s } ::= { %s }' % (i, rng.choice(['', 'IMPLIED ']), ', '.join(r() for _ in range(rng.randint(1, 3))), r()))
+        elif k == 1:
+            parts.append('aug%d OBJECT-TYPE SYNTAX RowT MAX-ACCESS not-accessible STATUS current DESCRIPTION "d" '
+                         'AUGMENTS { %s } ::= { %s }' % (i, r(), r()))
+        elif k == 2:
+            parts.append('grp%d OBJECT-GROUP OBJECTS { %s } STATUS current DESCRIPTION "d" ::= { %s }' % (
+                i, ', '.join(r() for _ in range(rng.randint(1, 3))), r()))
+        elif k == 3:
+            parts.append('ntf%d NOTIFICATION-TYPE OBJECTS { %s } STATUS current DESCRIPTION "d" ::= { %s }' % (
+                i, ', '.join(r() for _ in range(rng.randint(1, 3))), r()))
+        elif k == 4:
+            parts.append('ngr%d NOTIFICATION-GROUP NOTIFICATIONS { %s } STATUS current DESCRIPTION "d" ::= { %s }' % (
+                i, ', '.join(r() for _ in range(rng.randint(1, 2))), r()))
+        else:
+            parts.append('obj%d OBJECT-TYPE SYNTAX Integer32 (%s) MAX-ACCESS read-only STATUS current DESCRIPTION "d" '
+                         'DEFVAL { %s } ::= { %s }' % (i, rng.choice(['0', '0..0', '-1..0', '0 | 2']),
+                                                       rng.choice(['0', '{ 0 }', '{ 0 0 }', "''H", "'0'B"]), r()))
+    parts.append('END')
+    return rng.choice([' ', '\n']).join(parts) + '\n'
+
+
+def case_corners(idx, rng, tier, res):
+    text = corner_text(rng)
+    fam = subsets_for_case(rng, tier, [])
+    outcomes = {}
+    for s in fam:
+        oc = try_parse(s, text, res)
+        if oc is None:
+            continue
+        outcomes[s] = oc
+        if oc[0] == 'other':
+            res.violation('foreign_exception', 'subset %s: %r' % (sorted(s), oc[1]),
+                          replay={'text': text, 'subset': sorted(s)}, corner=True)
+    for a, b in itertools.permutations(list(outcomes), 2):
+        if not a < b:
+            continue
+        res.count('corner_inclusion_pairs')
+        oa, ob = outcomes[a], outcomes[b]
+        if oa[0] == 'ok':
+            if ob[0] != 'ok':
+                res.violation('superset_rejects', 'corner text accepted under %s but rejected under its superset %s: %s' % (
+                    sorted(a), sorted(b), ob[1]), replay={'text': text, 'small': sorted(a), 'big': sorted(b)},
+                    corner=True, added=','.join(sorted(b - a))[:80])
+            elif oa[1] != ob[1]:
+                res.violation('superset_tree_differs', 'corner text: tree under %s differs from the tree under %s at %s' % (
+                    sorted(b), sorted(a), c02_ast.first_diff(ob[1], oa[1])),
+                    replay={'text': text, 'small': sorted(a), 'big': sorted(b)}, corner=True)
+    res.count('corner_texts')
+    if any(o[0] == 'ok' for o in outcomes.values()):
+        res.count('corner_texts_accepted')
+    res.evals = len(outcomes)
+    res.sig = harness.stable_hash([text, sorted(sorted(s) for s in outcomes)])
+    res.nontrivial = len(outcomes) >= 2
+
+
 def run_case(idx, rng, tier, res):
     from pysmi import error
+    if idx % 10 == 9:
+        return case_corners(idx, rng, tier, res)
     feats = [f for f in c02_ast.FEATURES]
     g = c02_ast.make_set(rng, tier, feats)
     kind = None
